@@ -106,6 +106,16 @@ def analyse_scan(prog, rep, kern, entry, loop, ext, data, listparam, mode, earli
         if isinstance(s, ast.Assign) and isinstance(s.targets[0], ast.Name) and any(r in list(ast.walk(s.value)) for r in reads):
             valname = s.targets[0].id
     # 4. the flag is set exactly when the cell is kept
+    helper_keep = keep_via_helper(prog, kern, il, data, rowv, colv, listparam, flag, mode)
+    if helper_keep is not None:
+        nanaware, kok = helper_keep
+        if mode == 'trim':
+            rep.add('T1', kern, entry, site + ': membership helper', il.lineno, nanaware,
+                    'the exclusion list may contain NaN (it does by default): the membership test must be NaN-aware')
+        rep.add('T2-keep', kern, entry, site + ': keep test via helper', il.lineno, kok,
+                'a cell is kept iff it equals no excluded value (trim) / selected iff it equals a listed id (crop); the '
+                'first such cell must set the stop flag')
+        return axis, direction, bound
     vloops = [s for s in il.body if isinstance(s, ast.For) and norm(s.iter) == listparam]
     if len(vloops) != 1 or valname is None:
         rep.add('T2-keep', kern, entry, site, il.lineno, None, 'loop over the value list `%s` not found' % listparam)
@@ -141,22 +151,142 @@ def analyse_scan(prog, rep, kern, entry, loop, ext, data, listparam, mode, earli
     return axis, direction, bound
 
 
+def membership_helper(prog, scope, call):
+    """`H(value, values)` where H is `for e in values: if e == value [nan-aware]: return True` + `return False`.
+    Returns 'nan-aware' | 'plain' | None."""
+    t = prog.resolve_callable(scope, scope.module, call.func)
+    if not isinstance(t, Func) or len(t.params) != 2 or len(call.args) != 2:
+        return None
+    body = [s for s in t.node.body if not (isinstance(s, ast.Expr) and isinstance(s.value, ast.Constant))]
+    if len(body) != 2 or not isinstance(body[0], ast.For) or not isinstance(body[1], ast.Return) or norm(body[1].value) != 'False':
+        return None
+    lp = body[0]
+    if not (isinstance(lp.iter, ast.Name) and lp.iter.id in t.params and isinstance(lp.target, ast.Name) and len(lp.body) == 1
+            and isinstance(lp.body[0], ast.If) and len(lp.body[0].body) == 1 and isinstance(lp.body[0].body[0], ast.Return)
+            and norm(lp.body[0].body[0].value) == 'True' and not lp.body[0].orelse):
+        return None
+    vparam = [p for p in t.params if p != lp.iter.id][0]
+    # the call must pass (value, list) in the helper's parameter order
+    test = lp.body[0].test
+    if is_nan_aware_eq(prog, t, test, lp.target.id, vparam):
+        kind = 'nan-aware'
+    elif is_plain_eq(test, lp.target.id, vparam):
+        kind = 'plain'
+    else:
+        return None
+    return kind, t.params.index(vparam), t.params.index(lp.iter.id)
+
+
+def keep_via_helper(prog, kern, il, data, rowv, colv, listparam, flag, mode):
+    """`if [not] H(data[row, col], values): flag = True; break` in the line loop -> (nan-aware?, keep-test ok?)"""
+    for s in il.body:
+        if not isinstance(s, ast.If):
+            continue
+        test = s.test
+        neg = False
+        if isinstance(test, ast.UnaryOp) and isinstance(test.op, ast.Not):
+            neg, test = True, test.operand
+        if not isinstance(test, ast.Call):
+            continue
+        mh = membership_helper(prog, kern, test)
+        if mh is None:
+            continue
+        kind, vi, li = mh
+        val = test.args[vi]
+        lst = test.args[li]
+        # the value is the cell (directly or through a local)
+        if isinstance(val, ast.Name):
+            defs = [x.value for x in il.body if isinstance(x, ast.Assign) and norm(x.targets[0]) == val.id]
+            val = defs[0] if len(defs) == 1 else val
+        cell_ok = norm(val).replace(' ', '') == '%s[%s,%s]' % (data, rowv, colv)
+        sets = any(norm(x) == '%s = True' % flag for x in s.body) and not s.orelse
+        want_neg = (mode == 'trim')
+        ok = cell_ok and norm(lst) == listparam and sets and (neg == want_neg)
+        return kind == 'nan-aware', ok and (kind == 'nan-aware' or mode == 'crop')
+    return None
+
+
+class _Win:
+    """tiny symbolic evaluator for the wrapper: which window of which raster is returned"""
+    def __init__(self, prog, kernels):
+        self.prog = prog
+        self.kernels = kernels
+        self.kcall = None
+
+    def ev(self, f, e, env, depth=0):
+        if isinstance(e, ast.Name):
+            return env.get(e.id, ('name', e.id))
+        if isinstance(e, ast.Constant):
+            return ('const', e.value)
+        if isinstance(e, ast.Tuple):
+            return ('tuple', [self.ev(f, x, env, depth) for x in e.elts])
+        if isinstance(e, ast.BinOp) and isinstance(e.op, ast.Add):
+            return ('add', self.ev(f, e.left, env, depth), self.ev(f, e.right, env, depth))
+        if isinstance(e, ast.Slice):
+            return ('slice', self.ev(f, e.lower, env, depth) if e.lower else None, self.ev(f, e.upper, env, depth) if e.upper else None)
+        if isinstance(e, ast.Subscript):
+            base = self.ev(f, e.value, env, depth)
+            idx = self.ev(f, e.slice, env, depth)
+            if base[0] == 'tuple' and idx[0] == 'const' and isinstance(idx[1], int):
+                return base[1][idx[1]]
+            if base[0] == 'kres' and base[1] is None and idx[0] == 'const':
+                return ('kres', idx[1])
+            return ('index', base, idx)
+        if isinstance(e, ast.Attribute):
+            return ('attr', self.ev(f, e.value, env, depth), e.attr)
+        if isinstance(e, ast.Call):
+            if isinstance(e.func, ast.Name) and e.func.id == 'slice' and len(e.args) == 2:
+                return ('slice', self.ev(f, e.args[0], env, depth), self.ev(f, e.args[1], env, depth))
+            t = self.prog.resolve_callable(f, f.module, e.func)
+            if isinstance(t, Func) and t.jit is not None and len(e.args) == 2:
+                self.kcall = (e, t, [self.ev(f, a, env, depth) for a in e.args])
+                return ('kres', None)
+            if isinstance(t, Func) and depth < 3:
+                benv = {}
+                for p, a in list(zip(t.params, e.args)) + [(k.arg, k.value) for k in e.keywords if k.arg]:
+                    benv[p] = self.ev(f, a, env, depth)
+                return self.run(t, benv, depth + 1)
+            return ('call', norm(e.func))
+        return ('other', norm(e))
+
+    def run(self, f, env, depth=0):
+        env = dict(env)
+        ret = None
+        self.mut = getattr(self, 'mut', [])
+        for s in f.node.body:
+            if isinstance(s, ast.Assign):
+                v = self.ev(f, s.value, env, depth)
+                t = s.targets[0]
+                if isinstance(t, ast.Name):
+                    env[t.id] = v
+                elif isinstance(t, ast.Tuple):
+                    if v[0] == 'tuple':
+                        for x, vv in zip(t.elts, v[1]):
+                            env[x.id] = vv
+                    elif v[0] == 'kres' and v[1] is None:
+                        for i, x in enumerate(t.elts):
+                            env[x.id] = ('kres', i)
+                elif isinstance(t, ast.Attribute):
+                    self.mut.append((norm(t), env.get(norm(t.value)), t.attr))
+                elif isinstance(t, ast.Subscript):
+                    self.mut.append((norm(t), env.get(norm(t.value)), '[]'))
+            elif isinstance(s, ast.Return) and s.value is not None:
+                ret = self.ev(f, s.value, env, depth)
+        return ret
+
+
 def analyse(prog, rep, pubname, mode):
     m = prog.module('zonal')
     pub = m.funcs.get(pubname)
     if pub is None:
         raise AnalysisIncomplete('zonal.%s not found' % pubname)
-    # the scan kernel: the call whose 4-tuple result is unpacked
-    kcall = None
-    for n in pub.own_nodes():
-        if isinstance(n, ast.Assign) and isinstance(n.targets[0], ast.Tuple) and len(n.targets[0].elts) == 4 and \
-                isinstance(n.value, ast.Call):
-            t = prog.resolve_callable(pub, m, n.value.func)
-            if isinstance(t, Func):
-                kcall = (n, t)
-    if kcall is None:
+    # the scan kernel call and the window returned by the wrapper (through helpers, any local names)
+    w = _Win(prog, None)
+    penv = {p: ('param', p) for p in pub.params}
+    retval = w.run(pub, penv)
+    if w.kcall is None:
         raise AnalysisIncomplete('%s: scan kernel call not found' % pubname)
-    asg, kern = kcall
+    kcall_node, kern, kargs = w.kcall
     entry = pubname
     ext, data = shape_names(kern)
     listparam = kern.params[1]
@@ -182,40 +312,25 @@ def analyse(prog, rep, pubname, mode):
     rep.add('T3-order', kern, entry, norm(rets[0]) if rets else 'return', rets[0].lineno if rets else kern.node.lineno, okr,
             'the kernel must return (top, bottom, left, right) = bounds of (rows asc, rows desc, cols asc, cols desc); '
             'bounds by scan: %s' % role)
-    # wrapper: unpack names -> slice
-    names = [e.id for e in asg.targets[0].elts]
-    scanned = norm(asg.value.args[0]) if asg.value.args else None
-    want_scan = {'trim': pub.params[0] + '.data', 'crop': pub.params[0] + '.data'}[mode]
-    rep.add('T3-input', pub, entry, norm(asg), asg.lineno, scanned in (want_scan, want_scan.replace('.data', '.values')) and
-            norm(asg.value.args[1]) == pub.params[{'trim': 1, 'crop': 2}[mode]],
-            'the scan must read the %s raster and the caller\'s value list' % pub.params[0])
+    # wrapper: scanned raster, value list, returned window
+    scan_p = pub.params[0]
+    list_p = pub.params[{'trim': 1, 'crop': 2}[mode]]
+    ok_in = len(kargs) == 2 and kargs[0] in (('attr', ('param', scan_p), 'data'), ('attr', ('param', scan_p), 'values')) and \
+        kargs[1] == ('param', list_p)
+    rep.add('T3-input', pub, entry, norm(kcall_node), kcall_node.lineno, ok_in,
+            'the scan must read the `%s` raster and the caller\'s value list `%s`' % (scan_p, list_p))
     sliced = pub.params[0] if mode == 'trim' else pub.params[1]
-    t, b, l, r = names
-    want = '%s[%s:%s + 1, %s:%s + 1]' % (sliced, t, b, l, r)
-    subs = [n for n in pub.own_nodes() if isinstance(n, ast.Subscript) and isinstance(n.slice, ast.Tuple) and
-            any(isinstance(e, ast.Slice) for e in n.slice.elts)]
-    ok = len(subs) == 1 and norm(subs[0]).replace(' ', '') == want.replace(' ', '')
-    rep.add('T3-slice', pub, entry, norm(subs[0]) if subs else 'window slice', subs[0].lineno if subs else pub.node.lineno, ok,
-            'the result must be the basic slice %s (inclusive upper bounds, rows then columns) of `%s`' % (want, sliced))
-    # returned object is that slice (only its name may be set)
-    rets = [n for n in pub.own_nodes() if isinstance(n, ast.Return)]
-    okret = False
-    if subs and rets and isinstance(rets[-1].value, ast.Name):
-        rn = rets[-1].value.id
-        vals = pub.local_assigns().get(rn, [])
-        okret = len(vals) == 1 and vals[0] is subs[0]
-        # no other mutation than .name
-        for n in pub.own_nodes():
-            if isinstance(n, ast.Assign) and isinstance(n.targets[0], ast.Attribute) and norm(n.targets[0].value) == rn:
-                if n.targets[0].attr != 'name':
-                    okret = False
-            if isinstance(n, ast.Assign) and isinstance(n.targets[0], ast.Subscript) and norm(n.targets[0].value).startswith(rn):
-                okret = False
-    elif subs and rets and rets[-1].value is subs[0]:
-        okret = True
-    rep.add('T3-return', pub, entry, norm(rets[-1]) if rets else 'return', rets[-1].lineno if rets else pub.node.lineno, okret,
-            'the function must return that slice itself (cells, coordinates and attributes of the original), only '
-            'its name may be set')
+    kr = lambda i: ('kres', i)   # noqa
+    want = ('index', ('param', sliced), ('tuple', [('slice', kr(0), ('add', kr(1), ('const', 1))),
+                                                  ('slice', kr(2), ('add', kr(3), ('const', 1)))]))
+    rep.add('T3-slice', pub, entry, 'returned window: %s' % (retval,), pub.node.lineno, retval == want,
+            'the result must be the basic slice [top:bottom+1, left:right+1] (inclusive upper bounds, rows then columns) '
+            'of `%s`, built from the kernel\'s (top, bottom, left, right)' % sliced)
+    bad = [m for m in getattr(w, 'mut', []) if m[2] != 'name']
+    rep.add('T3-return', pub, entry, 'only the name of the window is set: %s' % [m[0] for m in getattr(w, 'mut', [])],
+            pub.node.lineno, not bad,
+            'the function must return that slice itself (cells, coordinates and attributes of the original), only its '
+            'name may be set')
 
 
 def check(prog, rep):
